@@ -119,9 +119,6 @@ func (d *dec) decodeDatatype(c *cur, depth int) *Datatype {
 	if (t.Version < 1 || t.Version > 5) && !(d.lib && t.Class == 9 && t.Version == 0) {
 		d.fail("%s: version %d not in 1..5", what, t.Version)
 	}
-	if t.Version == 5 || t.Class == 11 {
-		d.unsupported("datatype version %d class %d (complex number / HDF5 2.0 encoding)", t.Version, t.Class)
-	}
 	if t.Size == 0 && t.Class != 3 {
 		// zero-sized strings occur (H5T_C_S1 of size 0 is rejected by the API but size 0 is not forbidden for strings by the spec)
 		d.fail("%s: size is 0", what)
@@ -377,6 +374,7 @@ func (d *dec) decodeDatatype(c *cur, depth int) *Datatype {
 		if t.Version == 2 {
 			c.zero(3, "array reserved")
 		}
+		_ = 0
 		total := uint64(1)
 		for i := 0; i < nd; i++ {
 			v := uint64(c.u32("array dimension size"))
@@ -393,8 +391,26 @@ func (d *dec) decodeDatatype(c *cur, depth int) *Datatype {
 		if total*uint64(t.Base.Size) != uint64(t.Size) {
 			d.fail("%s: array of %v elements of %d bytes does not match the datatype size %d", what, t.ArrayDims, t.Base.Size, t.Size)
 		}
+	case 11: // complex number (datatype version 5)
+		if t.Version < 5 {
+			d.fail("%s: complex class requires datatype version >= 5, found %d", what, t.Version)
+		}
+		reservedBits(0xfffff8)
+		if t.BitField&1 == 0 {
+			d.fail("%s: complex datatype is not flagged homogeneous", what)
+		}
+		if form := (t.BitField >> 1) & 3; form != 0 {
+			d.fail("%s: complex number form %d, only 0 (rectangular) is defined", what, form)
+		}
+		t.Base = d.decodeDatatype(c, depth+1)
+		if t.Base.Class != 1 && t.Base.Class != 0 {
+			d.fail("%s: complex base type has class %d", what, t.Base.Class)
+		}
+		if uint64(t.Base.Size)*2 != uint64(t.Size) {
+			d.fail("%s: complex size %d is not twice the base type size %d", what, t.Size, t.Base.Size)
+		}
 	default:
-		d.fail("%s: datatype class %d not in 0..10", what, t.Class)
+		d.fail("%s: datatype class %d not in 0..11", what, t.Class)
 	}
 	t.Props = c.b[pstart:c.pos]
 	t.encLen = c.pos - start
